@@ -275,7 +275,7 @@ def run(rep, rng, tier):
         npts = rng.choice([9, 12, 16, 20, 31, 32, 40, 60])
         dt = rng.choice([0.01, 0.02, 0.005, 0.05])
         vals, _ = gens.float_record(rng, npts, style=rng.choice(['gauss', 'sine', 'motion', 'offset']))
-        how = rng.choice(['ctor', 'setter_freqs', 'setter_frequencies', 'by_range', 'gen_band', 'ctor_range'])
+        how = rng.choice(['ctor', 'setter_freqs', 'setter_frequencies', 'by_range', 'gen_band', 'ctor_range', 'read_then_by_range', 'read_then_gen_freqs', 'read_then_setter'])
         cls = rng.choice([eqsig.AccSignal, eqsig.Signal])
         site = 'Signal.smooth_fa_spectrum[%s]' % how
         args = {'values': list(map(float, vals)), 'dt': dt, 'how': how, 'class': cls.__name__}
@@ -301,6 +301,25 @@ def run(rep, rng, tier):
                 s.set_smooth_fa_frequecies_by_range(lim, rng.randint(2, 9))
             elif how == 'ctor_range':
                 s = cls(vals.copy(), dt, smooth_freq_range=(float(F[1]), float(F[-1])))
+            elif how.startswith('read_then'):
+                # smooth once on one target grid, then change the targets (same number of points, same band) through
+                # each public path, then read again: the spectrum must be the one of the NEW targets
+                while len(TG) < 2:
+                    TG = make_targets(rng, F, nmax=8)
+                s = cls(vals.copy(), dt, smooth_fa_freqs=TG)
+                _ = np.array(s.smooth_fa_spectrum)
+                k = len(TG)
+                if how == 'read_then_by_range':
+                    lim = (float(F[1]) * rng.uniform(0.5, 1.5), float(F[-1]) * rng.uniform(0.5, 1.5))
+                    s.set_smooth_fa_frequecies_by_range(lim, k)
+                else:
+                    TG2 = make_targets(rng, F, nmax=8)
+                    while len(TG2) != k:
+                        TG2 = make_targets(rng, F, nmax=8)
+                    if how == 'read_then_gen_freqs':
+                        s.gen_smooth_fa_spectrum(smooth_fa_freqs=TG2)
+                    else:
+                        s.smooth_fa_frequencies = TG2
             else:
                 s = cls(vals.copy(), dt, smooth_fa_freqs=TG)
                 b = make_band(rng)
